@@ -348,3 +348,65 @@ class TablesProp:
 
 
 _reg(TablesProp())
+
+
+def _c07(tier, rng):
+    heavy = tier == "thorough"
+    yield ("systematic single edits of seed vectors (all levels, versions, full and partial), each at its own and another decoder; random bytes; separator storms",
+           S.parser3_ops(rng, 18 if tier == "quick" else 300, heavy, nrandom=3000 if tier == "quick" else 200000), False)
+    yield ("well-formed vectors: permutations, omissions, explicit X", S.accepted3_ops(rng, 20000 if tier == "quick" else 500000), False)
+
+
+_reg(DecodeProp(
+    "C07", ["CvssVerif.Props.C07"],
+    ["CvssVerif.Props.C07.accept3_iff", "CvssVerif.Props.C07.decode3_outcome"],
+    _c07,
+    "systematic edit neighbourhood (drop / duplicate / swap token, every code and every name of the library substituted at every position, "
+    "case changes, colon and slash insertions and removals, prefix variants, whitespace, character edits) of seeded seed vectors of all "
+    "three levels, offered to the seed's decoder and a second one; random byte strings incl. NUL and invalid UTF-8; distinct by (decoder, string)",
+    assumptions=["the theorem covers all byte strings on the model; the transfer to the code holds for the strings compared in this run"]))
+
+
+def _c08(tier, rng):
+    heavy = tier == "thorough"
+    yield ("systematic edits of canonical v2 vectors (all four group patterns) at all three decoders; group reorderings and partial groups; random bytes",
+           S.parser2_ops(rng, 12 if tier == "quick" else 200, heavy, nrandom=3000 if tier == "quick" else 200000), False)
+    yield ("canonical vectors of every pattern", S.accepted2_ops(rng, 20000 if tier == "quick" else 500000), False)
+
+
+def _c09(tier, rng):
+    n = 30000 if tier == "quick" else 600000
+    yield ("v3 well-formed vectors: permutations, omissions, explicit X, all decoders", S.accepted3_ops(rng, n), False)
+    yield ("v3 explicit-X versus omitted pairs", S.x_vs_omitted3(rng, n // 5), False)
+    yield ("v2 canonical vectors of every group pattern, all decoders", S.accepted2_ops(rng, n), False)
+    yield ("all v3 base vectors, permuted", S.base3_permuted(rng, kind="D3"), False)
+
+
+def _c10(tier, rng):
+    n = 30000 if tier == "quick" else 600000
+    yield ("v3 well-formed vectors (encode, String, re-decode)", S.accepted3_ops(rng, n), False)
+    yield ("v2 canonical vectors (encode = input, String, re-decode)", S.accepted2_ops(rng, n), False)
+    yield ("v3 edit neighbourhood (accepted members)", S.parser3_ops(rng, 6 if tier == "quick" else 60, False, nrandom=200), False)
+
+
+_reg(DecodeProp(
+    "C08", ["CvssVerif.Props.C08"], ["CvssVerif.Props.C08.accept2_iff", "CvssVerif.Props.C08.encode2_identity"], _c08,
+    "systematic edit neighbourhood of canonical v2 vectors of all four group patterns (drop / duplicate / swap, every code and name, case, "
+    "colon/slash edits, group reorder, partial groups, version prefixes, whitespace, character edits) at all three decoders; random bytes",
+    assumptions=["the theorem covers all byte strings on the model; the transfer to the code holds for the strings compared in this run"]))
+
+_reg(DecodeProp(
+    "C09", ["CvssVerif.Props.C09"],
+    ["CvssVerif.Props.C09.decode3_fields", "CvssVerif.Props.C09.decode3_field_codes", "CvssVerif.Props.C09.decode3_perm",
+     "CvssVerif.Props.C09.v3_queries_depend_on_fields", "CvssVerif.Props.C09.decode3_X_omit", "CvssVerif.Props.C09.decode2_fields"],
+    _c09,
+    "seeded well-formed vectors of both versions at every decoder: field dumps (enumeration value and printed code of every field, names "
+    "sets, IsEmpty) against the written tokens; explicit-X / omitted pairs; distinct by (decoder, string)"))
+
+_reg(DecodeProp(
+    "C10", ["CvssVerif.Props.C10"],
+    ["CvssVerif.Props.C10.encode3_canonical", "CvssVerif.Props.C10.decode3_encode_decode", "CvssVerif.Props.C10.encode2_identity",
+     "CvssVerif.Props.C10.decode2_encode_decode"],
+    _c10,
+    "every accepted vector of the streams: Encode() against the specification's canonical string, String() = Encode(), and the flag rt "
+    "(re-decoding the encoding gives the same fields, scores and encoding)"))
